@@ -95,12 +95,11 @@ def r1(ctx, cfg):
 
 def _namespace_prefix(cfg, f):
     P = cfg.prov
-    from rules.C07 import _ret_local
-    l = _ret_local(f)
-    vb = q.vec_build(P, f, l) if l is not None else None
-    if vb is None:
+    from vlib import pipeline
+    parts = pipeline.byte_parts(P, cfg.facts, f, P.ret(f))
+    if not parts:
         return None
-    init = peel(vb[0])
+    init = peel(parts[0])
     if init[0] == "const" and init[1] in ("bytes", "str"):
         return init[2]
     return None
@@ -339,16 +338,10 @@ def r5(ctx, cfg):
     f = ctx.need_fn(R, key)
     if f is None:
         return
-    from rules.C07 import _ret_local
-    l = _ret_local(f)
-    vb = q.vec_build(P, f, l) if l is not None else None
-    ok = vb is not None
-    d = "unrecognised"
-    if ok:
-        init, muts = vb
-        i0 = peel(init)
-        d = "%s then %s" % (fmt(i0), [(n, [fmt(x)[:40] for x in a]) for b, t, n, a in muts])
-        ok = i0[0] == "const" and i0[2] == "contract_data/" and len(muts) == 1 and muts[0][2] == "extend_from_slice" and is_param(muts[0][3][0], "contract")
+    from vlib import pipeline
+    parts = pipeline.byte_parts(P, F, f, P.ret(f))
+    d = "unrecognised" if parts is None else " ++ ".join(fmt(x)[:40] for x in parts)
+    ok = parts is not None and len(parts) == 2 and peel(parts[0])[0] == "const" and peel(parts[0])[2] == "contract_data/" and is_param(parts[1], "contract")
     ctx.ob(R, key, "namespace='contract_data/'++address", ok, "contract_namespace builds %s" % d, fn=f, sample=d)
     # no override of the provided methods in the default keeper
     over = []
